@@ -289,8 +289,16 @@ class DFA(FSA):
         elif not asbytes and ord(label) >= sys.maxunicode:
             # There is no character after the highest code point
             return None
+        elif asbytes:
+            label = label + 1
         else:
-            label = (label + 1) if asbytes else unichr(ord(label) + 1)
+            code = ord(label) + 1
+            if 0xD800 <= code <= 0xDFFF:
+                # Surrogates are not characters: no term contains one (and a
+                # string with one cannot be looked up in the term index), so
+                # the character after U+D7FF is U+E000
+                code = 0xE000
+            label = unichr(code)
         trans = self.transitions.get(s, {})
         if label in trans or s in self.defaults:
             return label
